@@ -848,6 +848,9 @@ class _DryWorld:
         return True
 
 
+EXHAUSTIVE = {}          # (type, args) -> were the own choice combinations enumerated exhaustively (else covering sample)
+
+
 def own_cases(typename, args=(), cap=40, seed=1, addr_var=False):
     """combinations of the type's OWN choice points (constructor alternative, Maybe/Either/conditional guards/pinned
     parameters/dictionary shapes/address kinds/alternatives of direct fields, reached before entering the fields of another
@@ -899,9 +902,11 @@ def own_cases(typename, args=(), cap=40, seed=1, addr_var=False):
     try:
         dfs({})
         if len(results) <= cap:
+            EXHAUSTIVE[(typename, tuple(args))] = True
             return results
     except Budget:
         pass
+    EXHAUSTIVE[(typename, tuple(args))] = False
     rnd = random.Random(seed)
     keep = {}
     arity = {}
